@@ -330,12 +330,36 @@ func nearDuplicateCase(c *mon.Ctx, idx int64, r *rand.Rand) {
 		{"stuffing-versus-extension", false, false, 0, stuff([]byte{0x00}), stuff([]byte{0x01, 0x01, 0x1f})},
 		{"private-data-versus-stuffing", false, false, 0, stuff([]byte{0x02, 0x03, 1, 2, 3}), stuff([]byte{0x00})},
 		{"splice-versus-stuffing", false, false, 0, stuff([]byte{0x04, 0x05}), stuff([]byte{0x00})},
+		// the same flags and lengths, other VALUES (only the clock references of a duplicate may differ): a splice countdown that
+		// has moved on, private data that numbers the packets, a legal time window offset, a piecewise rate, a splice type / DTS
+		{"splice-countdown-value", false, false, 0, stuff([]byte{0x04, 0x64}), stuff([]byte{0x04, 0x54})},
+		{"private-data-value", false, false, 0, stuff([]byte{0x02, 0x02, 0x5a, 0x02}), stuff([]byte{0x02, 0x02, 0x5a, 0x12})},
+		{"ltw-offset-value", false, false, 0, stuff([]byte{0x01, 0x03, 0x9f, 0x81, 0x02}), stuff([]byte{0x01, 0x03, 0x9f, 0x81, 0x12})},
+		{"piecewise-rate-value", false, false, 0, stuff([]byte{0x01, 0x04, 0x5f, 0xc0, 0x10, 0x00}), stuff([]byte{0x01, 0x04, 0x5f, 0xc0, 0x20, 0x00})},
+		{"splice-type-dts-value", false, false, 0, stuff([]byte{0x01, 0x06, 0x3f, 0x11, 0x00, 0x01, 0x00, 0x01}), stuff([]byte{0x01, 0x06, 0x3f, 0x11, 0x00, 0x01, 0x00, 0x21})},
+		{"reserved-bytes-count", false, false, 0, stuff([]byte{0x01, 0x03, 0x1f, 0xff, 0xff}), stuff([]byte{0x01, 0x02, 0x1f, 0xff, 0xff})},
 	}
 	v := vs[int(idx)%len(vs)]
 	build := func(withRepeat bool) *longStream {
 		s := newLongStream()
 		s.cc[0x100] = uint8(idx) & 15
 		s.pes(0x100, 0xe0, 1, longData(0x100, 1, 60+int(idx)%100), false)
+		if !v.dup {
+			// what a receiver sees after the loss of 15 packets: a unit of 20 packets of constant filler, packets 2..16 missing,
+			// packet 17 with the counter and the payload of packet 1 and the other adaptation field
+			d := bytes.Repeat([]byte{0x55}, 184-14+18*167+50)
+			p := append(pesHeaderPTS(0xe0, 2, len(d), false), d...)
+			s.packet(0x100, true, p[:184])
+			s.afPacket(0x100, false, false, 0, v.first, p[184:184+167], false)
+			s.cc[0x100] = (s.cc[0x100] + 15) & 0xf // 15 packets that never arrive
+			s.afPacket(0x100, false, v.prio, v.tsc, v.rep, p[184+16*167:184+17*167], false)
+			s.afPacket(0x100, false, false, 0, v.first, p[184+17*167:184+18*167], false)
+			s.packet(0x100, false, p[184+18*167:])
+			s.want[0x100] = append(s.want[0x100], longUnit{pes: true, pts: 2, data: d, packets: 20})
+			s.pes(0x100, 0xe0, 3, longData(0x100, 3, 300), false)
+			s.pes(0x100, 0xe0, 4, longData(0x100, 4, 20), false)
+			return s
+		}
 		d := longData(0x100, 2, 184-14+167+184+90)
 		p := append(pesHeaderPTS(0xe0, 2, len(d), false), d...)
 		s.packet(0x100, true, p[:184])
